@@ -65,6 +65,79 @@ def v(name):
     return 'v_' + name
 
 
+RESOLVER = None
+
+
+class Resolver:
+    """module-level pattern constants (NAME = <pattern expr>, NAME: T = <pattern expr>) and nullary notations, looked up
+    in the module where they are used or followed through `from proof_generation.X import NAME`; the VALUE is inlined"""
+
+    def __init__(self, repo, base_consts):
+        self.repo, self.base, self.mods, self.busy = repo, base_consts, {}, set()
+
+    def mod(self, rel):
+        if rel not in self.mods:
+            self.mods[rel] = parse(self.repo, rel)
+        return self.mods[rel]
+
+    def find(self, rel, name, depth=0):
+        """-> (rel, value node) of the definition of `name` visible in module rel"""
+        if depth > 6:
+            return None
+        found = None
+        for n in self.mod(rel).body:
+            tgt = val = None
+            if isinstance(n, ast.Assign) and len(n.targets) == 1 and isinstance(n.targets[0], ast.Name):
+                tgt, val = n.targets[0].id, n.value
+            elif isinstance(n, ast.AnnAssign) and isinstance(n.target, ast.Name) and n.value is not None:
+                tgt, val = n.target.id, n.value
+            if tgt == name:
+                if found is not None:
+                    raise SystemExit(f'{HERE}: {rel}: module constant {name} is assigned twice')
+                found = (rel, val)
+            if isinstance(n, ast.ImportFrom) and n.module and n.module.startswith('proof_generation.') and n.level == 0:
+                for a in n.names:
+                    if (a.asname or a.name) == name:
+                        sub = n.module[len('proof_generation.'):].replace('.', '/') + '.py'
+                        return self.find(sub, a.name, depth + 1)
+        return found
+
+    def constant(self, rel, name):
+        d = self.find(rel, name)
+        if d is None:
+            return None
+        drel, val = d
+        if drel == 'pattern.py' and name in ('phi0', 'phi1', 'phi2'):
+            return self.base[name]
+        key = (drel, name)
+        if key in self.busy:
+            raise SystemExit(f'{HERE}: {drel}: module constant {name} is defined in terms of itself')
+        self.busy.add(key)
+        try:
+            cx = Ctx(f'{drel}:{name}', 'pure', {}, self.base)
+            cx.modrel = drel
+            c, kind = pexpr0(cx, val)
+        finally:
+            self.busy.discard(key)
+        if kind != 'pat':
+            fail(f'{drel}:{name}', val, 'module constant is not a pattern')
+        return c
+
+    def nullary_notation(self, rel, name):
+        d = self.find(rel, name)
+        if d is None:
+            return None
+        drel, c = d
+        if (isinstance(c, ast.Call) and isinstance(c.func, ast.Name) and c.func.id == 'Notation' and len(c.args) == 4
+                and isinstance(c.args[1], ast.Constant) and c.args[1].value == 0):
+            if drel == 'pattern.py' and name == 'bot':
+                return self.base['bot()']
+            cx = Ctx(f'{drel}:{name}', 'pure', {}, self.base)
+            cx.modrel = drel
+            return pexpr(cx, c.args[2], 'pat')[0]
+        return None
+
+
 class Ctx:
     """where: for messages; mode: 'pure' | 'opt' | 'M'; env: python name -> (kind, coq)"""
 
@@ -73,11 +146,32 @@ class Ctx:
         self.self_kind = self_kind      # 'basic' | 'dsl' | 'interp' | 'transformer' | 'memo'
         self.dsl = dsl or {}
         self.closures = {}
+        self.modrel = None
+        self.helpers = {}
 
     def child(self, mode=None):
         c = Ctx(self.where, mode or self.mode, self.env, self.consts, self.self_kind, self.dsl)
         c.closures = dict(self.closures)
+        c.modrel, c.helpers = self.modrel, self.helpers
         return c
+
+
+def type_set(node):
+    """`A`, `A | B | C`, `(A, B, C)` -> the set of class names (isinstance treats them alike)"""
+    if isinstance(node, ast.Name):
+        return {node.id}
+    if isinstance(node, ast.BinOp) and isinstance(node.op, ast.BitOr):
+        a, b = type_set(node.left), type_set(node.right)
+        return None if a is None or b is None else a | b
+    if isinstance(node, ast.Tuple):
+        out = set()
+        for e in node.elts:
+            x = type_set(e)
+            if x is None:
+                return None
+            out |= x
+        return out
+    return None
 
 
 def attr_chain(node):
@@ -133,6 +227,9 @@ def pexpr0(cx, node):
             return c, k
         if node.id in cx.consts:
             return cx.consts[node.id], 'pat'
+        r = RESOLVER.constant(cx.modrel, node.id) if RESOLVER is not None and cx.modrel else None
+        if r is not None:
+            return r, 'pat'
         fail(w, node, 'unknown name')
     if isinstance(node, ast.Attribute):
         ch = attr_chain(node)
@@ -223,6 +320,10 @@ def pexpr0(cx, node):
                 return pexpr(cx, node.args[0], 'pat')[0], 'proved'
             if f.id == 'bot' and not node.args:
                 return cx.consts['bot()'], 'pat'
+            if not node.args and RESOLVER is not None and cx.modrel:
+                r = RESOLVER.nullary_notation(cx.modrel, f.id)
+                if r is not None:
+                    return r, 'pat'
             if f.id == 'len' and len(node.args) == 1:
                 c, k = pexpr0(cx, node.args[0])
                 if k == 'delta':
@@ -235,13 +336,15 @@ def pexpr0(cx, node):
                 fail(w, node, 'reversed of a non-list')
             if f.id == 'isinstance' and len(node.args) == 2:
                 ch0 = attr_chain(node.args[0])
-                ty = ast.unparse(node.args[1])
-                if ch0 == ['self', 'sub_interpreter'] and ty == 'StatefulInterpreter':
+                ty = type_set(node.args[1])
+                if ty is None:
+                    fail(w, node, 'isinstance type expression outside the subset')
+                if ch0 == ['self', 'sub_interpreter'] and ty == {'StatefulInterpreter'}:
                     return 'sub_stateful', 'bool'
                 c, k = pexpr0(cx, node.args[0])
-                if k == 'evarparam' and ty in ('EVar', 'SVar'):
+                if k == 'evarparam' and ty in ({'EVar'}, {'SVar'}):
                     return 'true', 'bool'
-                if k == 'pat' and ty == 'MetaVar | ESubst | SSubst':
+                if k == 'pat' and ty == {'MetaVar', 'ESubst', 'SSubst'}:
                     return f'(is_meta_head {c})', 'bool'
                 fail(w, node, 'isinstance outside the subset')
         if ch and len(ch) >= 2:
@@ -441,6 +544,10 @@ def block(cx, stmts, fallthrough):
 
     if isinstance(s, ast.Expr) and isinstance(s.value, ast.Constant) and (isinstance(s.value.value, str) or s.value.value is Ellipsis):
         return tail()                                                 # docstring / `...`
+    if isinstance(s, ast.Pass) and getattr(cx, '_finish', None) is not None and not rest:
+        fin = cx._finish
+        cx._finish = None
+        return fin()
     if isinstance(s, ast.Return):
         if s.value is None:
             return RET(cx, 'tt')
@@ -462,6 +569,9 @@ def block(cx, stmts, fallthrough):
         s = ast.copy_location(ast.Assign(targets=[s.target], value=s.value), s)
     if isinstance(s, ast.Assign) and len(s.targets) == 1:
         tgt = s.targets[0]
+        hch = attr_chain(s.value.func) if isinstance(s.value, ast.Call) else None
+        if hch and len(hch) == 2 and hch[0] == 'self' and hch[1] in cx.helpers:
+            return inline_helper(cx, s, cx.helpers[hch[1]], tail)
         if isinstance(tgt, ast.Tuple) and len(tgt.elts) == 2 and all(isinstance(e, ast.Name) for e in tgt.elts):
             ch = attr_chain(s.value.func) if isinstance(s.value, ast.Call) else None
             if ch == ['Implies', 'extract'] and len(s.value.args) == 1:
@@ -508,6 +618,67 @@ def block(cx, stmts, fallthrough):
     if isinstance(s, ast.For):
         return for_stmt(cx, s, rest, fallthrough)
     fail(w, s, 'statement outside the subset')
+
+
+def inline_helper(cx, assign, fn, tail):
+    """`t1[, t2..] = self._helper(a1, ..)`: the helper's body with its parameters bound to the argument values, its
+    `return e1[, e2..]` assigning the targets; translated in place, so the generated text is that of the inlined code.
+    Fails closed when a local of the helper would shadow a variable of the caller that is still live."""
+    w = cx.where
+    call = assign.value
+    tgt = assign.targets[0]
+    targets = [e.id for e in tgt.elts] if isinstance(tgt, ast.Tuple) and all(isinstance(e, ast.Name) for e in tgt.elts) else \
+        [tgt.id] if isinstance(tgt, ast.Name) else None
+    if targets is None or call.keywords:
+        fail(w, assign, 'helper call form outside the subset')
+    a = fn.args
+    if a.vararg or a.kwarg or a.kwonlyargs or a.posonlyargs or a.defaults:
+        fail(w, fn, 'helper parameter kinds outside the subset')
+    pnames = [x.arg for x in a.args[1:]]
+    if len(pnames) != len(call.args):
+        fail(w, call, 'helper arity')
+    assigned = set(pnames)
+    for n in ast.walk(fn):
+        if isinstance(n, (ast.Assign, ast.AnnAssign)):
+            for t in (n.targets if isinstance(n, ast.Assign) else [n.target]):
+                for e in ([t] if isinstance(t, ast.Name) else t.elts if isinstance(t, ast.Tuple) else []):
+                    if isinstance(e, ast.Name):
+                        assigned.add(e.id)
+        if isinstance(n, (ast.For, ast.While, ast.FunctionDef, ast.Lambda, ast.Try)) and n is not fn:
+            fail(w, n, 'helper body outside the subset')
+    clash = (assigned & set(cx.env)) - set(targets)
+    if clash:
+        fail(w, assign, f'helper local(s) {sorted(clash)} would shadow live variables of the caller')
+    rets = [n for n in ast.walk(fn) if isinstance(n, ast.Return)]
+    if len(rets) != 1 or fn.body[-1] is not rets[0]:
+        fail(w, fn, 'helper must end in its only return')
+    h = cx.child()
+    h.env = dict(cx.env)
+    for pn, an in zip(pnames, call.args):
+        c, kind = pexpr0(cx, an)
+        h.env[pn] = (kind, c)
+    rv = rets[0].value
+    relts = rv.elts if isinstance(rv, ast.Tuple) else [rv]
+    if len(relts) != len(targets):
+        fail(w, rets[0], 'helper returns a different number of values')
+
+    def finish():
+        for t, e in zip(targets, relts):
+            c, kind = pexpr0(h, e)
+            cx.env[t] = (kind, c)
+        for k2, v2 in h.env.items():          # the helper's binders are in scope of the continuation
+            cx.env.setdefault(k2, v2)
+        return tail()
+    return block_with_return(h, fn.body[:-1], finish)
+
+
+def block_with_return(cx, stmts, finish):
+    """translate stmts, then continue with finish() (used for an inlined helper body)"""
+    if not stmts:
+        return finish()
+    marker = ast.Pass()
+    cx._finish = finish
+    return block(cx, list(stmts) + [marker], None)
 
 
 def mexpr_named(cx, val, name, tail):
@@ -739,6 +910,11 @@ def find_class(mod, name, rel):
     raise SystemExit(f'{HERE}: class {name} not found in {rel}')
 
 
+def private_methods(cls):
+    """helper methods `_name` of the class (not dunder): inlined at their call sites"""
+    return {n.name: n for n in cls.body if isinstance(n, ast.FunctionDef) and n.name.startswith('_') and not n.name.startswith('__')}
+
+
 def methods(cls):
     return {n.name: n for n in cls.body if isinstance(n, ast.FunctionDef)}
 
@@ -805,6 +981,7 @@ def gen_basic(repo, consts, out):
         env = {n: (k, v(n)) for n, k in ps}
         mode = 'M' if rk == 'unit' else ('opt' if m in ('modus_ponens', 'exists_generalization', 'instantiate') else 'pure')
         cx = Ctx(where, mode, env, consts, 'basic')
+        cx.modrel, cx.helpers = rel, private_methods(cls)
         cx.env['self.phase'] = ('phase', '')
         body = block(BasicCtx(cx), fn.body, 'ret tt' if mode == 'M' else None)
         sig = ' '.join(f'({v(n)}:{COQTY[k]})' for n, k in ps)
@@ -847,6 +1024,7 @@ def gen_interp_pattern(repo, consts, out):
         if len(pt.patterns) != len(kinds) or not all(isinstance(x, ast.MatchAs) and x.pattern is None and x.name for x in pt.patterns):
             fail(where, pt, 'sub-patterns must be plain captures')
         cx = Ctx(where, 'M', {}, consts, 'interp')
+        cx.modrel, cx.helpers = rel, private_methods(cls)
         names = [x.name for x in pt.patterns]
         for nme, k in zip(names, kinds):
             cx.env[nme] = (k, v(nme))
@@ -879,31 +1057,65 @@ def stateful_classes(repo):
     return {c: st(c) for c in bases}, bases
 
 
+def identity_param(fn):
+    """index of the parameter that the helper `fn` hands back unchanged from every return (None if it is not such a helper)"""
+    pnames = [a.arg for a in fn.args.args[1:]]
+    rets = [n for n in ast.walk(fn) if isinstance(n, ast.Return)]
+    if not rets or not all(isinstance(r.value, ast.Name) for r in rets):
+        return None
+    names = {r.value.id for r in rets}
+    if len(names) != 1 or next(iter(names)) not in pnames:
+        return None
+    nm = next(iter(names))
+    for n in ast.walk(fn):
+        tg = n.targets if isinstance(n, ast.Assign) else [n.target] if isinstance(n, (ast.AnnAssign, ast.AugAssign)) else []
+        for t in tg:
+            for e in ast.walk(t):
+                if isinstance(e, ast.Name) and e.id == nm:
+                    return None
+    return pnames.index(nm)
+
+
 def check_return_transparency(repo):
     """every override of an Interpreter method in the stateful / counting / serializing classes returns the value of
-    super().<same method>(<its own parameters, in order>) -- the base_ops abstraction of PyRt.v"""
+    super().<same method>(<its own parameters, in order>) -- the base_ops abstraction of PyRt.v.  The value may travel
+    through a local bound once, or through a private helper that hands one of its arguments back unchanged."""
     for rel, cname in (('stateful_interpreter.py', 'StatefulInterpreter'), ('counting_interpreter.py', 'CountingInterpreter'),
                        ('serializing_interpreter.py', 'SerializingInterpreter')):
         cls = find_class(parse(repo, rel), cname, rel)
+        helpers = private_methods(cls)
         for name, fn in methods(cls).items():
             if name not in OPS or OPS[name][1] == 'unit':
                 continue
             where = f'{cname}.{name}'
             pnames = [a.arg for a in fn.args.args[1:]]
-            sup = None
-            for st in fn.body:
-                if isinstance(st, ast.Assign) and isinstance(st.value, ast.Call) and attr_chain(st.value.func) == ['super()', name]:
-                    args = [a.id if isinstance(a, ast.Name) else None for a in st.value.args]
-                    if args != pnames or st.value.keywords or not (len(st.targets) == 1 and isinstance(st.targets[0], ast.Name)):
-                        fail(where, st, 'super() call does not forward the parameters unchanged')
-                    sup = st.targets[0].id
-            rets = [n for n in ast.walk(fn) if isinstance(n, ast.Return)]
-            if sup is None or not rets or not all(isinstance(r.value, ast.Name) and r.value.id == sup for r in rets):
-                fail(where, fn, 'does not return the value of super().' + name + '(..)')
+            bound = {}
             for n in ast.walk(fn):
-                if isinstance(n, ast.Assign) and any(isinstance(t, ast.Name) and t.id == sup for t in n.targets) and not (
-                        isinstance(n.value, ast.Call) and attr_chain(n.value.func) == ['super()', name]):
-                    fail(where, n, 'the returned value is reassigned')
+                if isinstance(n, ast.Assign):
+                    for t in n.targets:
+                        for e in ast.walk(t):
+                            if isinstance(e, ast.Name) and isinstance(e.ctx, ast.Store):
+                                bound.setdefault(e.id, []).append(n)
+
+            def is_super_value(e, depth=0):
+                if depth > 4:
+                    return False
+                if isinstance(e, ast.Call) and attr_chain(e.func) == ['super()', name]:
+                    args = [a.id if isinstance(a, ast.Name) else None for a in e.args]
+                    return args == pnames and not e.keywords
+                if isinstance(e, ast.Name):
+                    defs = bound.get(e.id, [])
+                    return (len(defs) == 1 and len(defs[0].targets) == 1 and isinstance(defs[0].targets[0], ast.Name)
+                            and is_super_value(defs[0].value, depth + 1))
+                if isinstance(e, ast.Call):
+                    ch = attr_chain(e.func)
+                    if ch and len(ch) == 2 and ch[0] == 'self' and ch[1] in helpers and not e.keywords:
+                        i = identity_param(helpers[ch[1]])
+                        return i is not None and i < len(e.args) and is_super_value(e.args[i], depth + 1)
+                return False
+            rets = [n for n in ast.walk(fn) if isinstance(n, ast.Return)]
+            if not rets or not all(r.value is not None and is_super_value(r.value) for r in rets):
+                fail(where, fn, 'does not return the value of super().' + name + '(<its own parameters>)')
 
 
 def gen_transformers(repo, consts, out):
@@ -914,7 +1126,7 @@ def gen_transformers(repo, consts, out):
     for m in OPS_ORDER:
         if m not in ms:
             raise SystemExit(f'{HERE}: InterpreterTransformer.{m} not found')
-        fields[m] = method_op(f'InterpreterTransformer.{m}', ms[m], m, consts, 'transformer')
+        fields[m] = method_op(f'InterpreterTransformer.{m}', ms[m], m, consts, 'transformer', rel, private_methods(cls))
     out.append(f'(* {rel}: every abstract method as delegated by InterpreterTransformer *)\n'
                'Definition gen_transformer_ops (sub:ops) : ops := mkops\n  ' + '\n  '.join(f'({fields[m]})' for m in OPS_ORDER) + '.\n')
     # optimizing_interpreters.py
@@ -926,17 +1138,17 @@ def gen_transformers(repo, consts, out):
         if [ast.unparse(b) for b in c.bases] != ['InterpreterTransformer']:
             fail(c.name, c, 'base class is not InterpreterTransformer')
     ims = methods(io)
-    extra = set(ims) - {'__init__', 'instantiate', 'instantiate_pattern'}
+    extra = {x for x in ims if not (x.startswith('_') and not x.startswith('__'))} - {'__init__', 'instantiate', 'instantiate_pattern'}
     if extra:
         fail('InstantiationOptimizer', io, f'unexpected methods {sorted(extra)}')
     check_forwarding_init(io, ['sub_interpreter'])
     iofields = dict(fields)
     iofields['instantiate'] = 'gen_instopt_instantiate sub'
-    body = method_op('InstantiationOptimizer.instantiate', ims['instantiate'], 'instantiate', consts, 'instopt')
+    body = method_op('InstantiationOptimizer.instantiate', ims['instantiate'], 'instantiate', consts, 'instopt', rel2, private_methods(io))
     out.append(f'(* {rel2}:{ims["instantiate"].lineno} *)\nDefinition gen_instopt_instantiate (sub:ops) : pat -> delta -> M pat :=\n  {body}.\n')
     out.append('Definition gen_instopt_ops (sub:ops) : ops := mkops\n  ' + '\n  '.join(f'({iofields[m]})' for m in OPS_ORDER) + '.\n')
     mms = methods(me)
-    extra = set(mms) - {'__init__', 'pattern'}
+    extra = {x for x in mms if not (x.startswith('_') and not x.startswith('__'))} - {'__init__', 'pattern'}
     if extra:
         fail('MemoizingInterpreter', me, f'unexpected methods {sorted(extra)}')
     fn = mms['pattern']
@@ -944,6 +1156,7 @@ def gen_transformers(repo, consts, out):
     if params(where, fn) != [('p', 'pat')]:
         fail(where, fn, 'parameters')
     cx = Ctx(where, 'M', {'p': ('pat', 'v_p')}, consts, 'memo')
+    cx.modrel, cx.helpers = rel2, private_methods(me)
     body = collapse(block(cx, fn.body, None))
     out.append(f'(* {rel2}:{fn.lineno}  MemoizingInterpreter.pattern; sub_stateful = isinstance(self.sub_interpreter, StatefulInterpreter),\n'
                '   inS = membership in self._patterns_for_memoization, rt_mem = self.sub_interpreter.memory,\n'
@@ -978,7 +1191,7 @@ def check_forwarding_init(cls, names):
             fail(cls.name, st, '__init__ does more than forward to super().__init__')
 
 
-def method_op(where, fn, m, consts, self_kind):
+def method_op(where, fn, m, consts, self_kind, modrel=None, helpers=None):
     ps = params(where, fn)
     kinds, rk = OPS[m]
     got = [k for _, k in ps]
@@ -988,6 +1201,7 @@ def method_op(where, fn, m, consts, self_kind):
     keep = [(n, k) for (n, k), kk in zip(ps, kinds) if kk != 'str']
     env = {n: (k, v(n)) for n, k in keep}
     cx = Ctx(where, 'M', env, consts, self_kind)
+    cx.modrel, cx.helpers = modrel, helpers or {}
     body = collapse(block(cx, fn.body, 'ret tt' if rk == 'unit' else None))
     if not keep:
         return body
@@ -1011,6 +1225,7 @@ def gen_dsl(repo, consts, out):
     if not ok:
         raise SystemExit(f'{HERE}: ProofThunk.__init__ is not `self._expr = expr; self.conc = conc`')
     cx = Ctx('ProofThunk.__call__', 'M', {'interpreter': ('interp', 'v_interpreter')}, consts, 'thunkcall')
+    cx.modrel = rel
     cx.env['self'] = ('thunk', 'th')
     body = block(ThunkCallCtx(cx), call.body, None)
     out.append(f'(* {rel}:{call.lineno}  ProofThunk.__call__ *)\nDefinition gen_thunk_call (th:thunk) (v_interpreter:obj) : M pat :=\n  {body}.\n')
@@ -1034,6 +1249,7 @@ def gen_dsl(repo, consts, out):
         ps = dsl[m]['ps']
         env = {n: (k, v(n)) for n, k in ps}
         cx = Ctx(where, 'opt', env, consts, 'dsl', dsl)
+        cx.modrel, cx.helpers = rel, private_methods(pe)
         body = block(cx, fn.body, None)
         sig = ' '.join(([f'(axs:list pat)'] if dsl[m]['axs'] else []) + [f'({v(n)}:{COQTY[k]})' for n, k in ps])
         out.append(f'(* {rel}:{fn.lineno} *)\nDefinition gen_dsl_{m} {sig} : option thunk :=\n  {body}.\n')
@@ -1053,6 +1269,7 @@ def gen_dsl(repo, consts, out):
                 fail(where, d, 'default value is not True')
         env = {n: (k, v(n)) for n, k in ps}
         cx = Ctx(where, 'M', env, consts, 'dsl', dsl)
+        cx.modrel, cx.helpers = rel, private_methods(pe)
         cx.env['interpreter.phase'] = ('phase', '')
         body = collapse(block(cx, fn.body, 'ret tt'))
         sig = ' '.join(f'({v(n)}:{COQTY[k]})' for n, k in ps)
@@ -1075,7 +1292,9 @@ def generate(repo):
            'Import ListNotations.', 'Open Scope N_scope.', '',
            f'(* pattern.py *)\nDefinition gen_phi0 : pat := {consts["phi0"]}.\nDefinition gen_phi1 : pat := {consts["phi1"]}.',
            f'Definition gen_phi2 : pat := {consts["phi2"]}.\nDefinition gen_bot : pat := {consts["bot()"]}.\n']
-    consts = {'phi0': 'gen_phi0', 'phi1': 'gen_phi1', 'phi2': 'gen_phi2', 'bot()': 'gen_bot'}
+    consts = {'bot()': 'gen_bot'}
+    global RESOLVER
+    RESOLVER = Resolver(repo, {'phi0': 'gen_phi0', 'phi1': 'gen_phi1', 'phi2': 'gen_phi2', 'bot()': 'gen_bot'})
     gen_basic(repo, consts, out)
     gen_interp_pattern(repo, consts, out)
     gen_transformers(repo, consts, out)
